@@ -28,6 +28,8 @@ def runLine (line : String) : String :=
     let inv := Tree.tableInvariant t
     render (encOutcome (find (build t) m p (List.replicate (max n (maxParam t)) []))
       ++ ["//"] ++ encSpec (Spec.routeTable t m p)
-      ++ ["//", if inv.1 then "TI1" else "TI0", if inv.2 then "RS1" else "RS0"])
+      ++ ["//", if inv.1 then "TI1" else "TI0", if inv.2 then "RS1" else "RS0",
+          -- a well-formed table must pass both (the statement of the insert-correctness theorem)
+          if Tree.wfTable t then (if inv.1 && inv.2 then "WF1" else "WF-BUT-INVARIANT-FAILS") else "WF0"])
 
 end C01
